@@ -1344,13 +1344,15 @@ func call(n *node) {
 		} else {
 			arg = c0.typ.arg[i]
 		}
+		// The slice followed by an ellipsis is passed as is, the other arguments are converted.
+		spread := hasVariadicArgs && i == len(child)-1
 		switch {
 		case isBinCall(c, c.scope):
 			// Handle nested function calls: pass returned values as arguments.
 			numOut := c.child[0].typ.rtype.NumOut()
 			for j := 0; j < numOut; j++ {
 				ind := c.findex + j
-				if hasVariadicArgs || !isInterfaceSrc(arg) || isEmptyInterface(arg) {
+				if spread || !isInterfaceSrc(arg) || isEmptyInterface(arg) {
 					values = append(values, func(f *frame) reflect.Value { return f.data[ind] })
 					continue
 				}
@@ -1363,7 +1365,7 @@ func call(n *node) {
 			cc0 := c.child[0]
 			for j := range cc0.typ.ret {
 				ind := c.findex + j
-				if hasVariadicArgs || !isInterfaceSrc(arg) || isEmptyInterface(arg) {
+				if spread || !isInterfaceSrc(arg) || isEmptyInterface(arg) {
 					values = append(values, func(f *frame) reflect.Value { return f.data[ind] })
 					continue
 				}
@@ -1377,7 +1379,7 @@ func call(n *node) {
 				convertLiteralValue(c, argType)
 			}
 			switch {
-			case hasVariadicArgs:
+			case spread:
 				values = append(values, genValue(c))
 			case isInterfaceSrc(arg) && (!isEmptyInterface(arg) || len(c.typ.method) > 0):
 				values = append(values, genValueInterface(c))
